@@ -13,7 +13,7 @@ use crate::rng::{LogHash, Rng};
 use crate::scen::*;
 use crate::typist::MS;
 use crate::world::*;
-use pc_keyboard::{DecodedKey, EventDecoder, HandleControl, KeyCode, KeyEvent, KeyState, Keyboard, Modifiers};
+use pc_keyboard::{DecodedKey, EventDecoder, HandleControl, KeyCode, KeyEvent, KeyState, Keyboard, KeyboardLayout, Modifiers};
 use std::cell::RefCell;
 use std::collections::VecDeque;
 use std::rc::Rc;
@@ -135,12 +135,15 @@ impl Scenario for Events {
             cov.probe_declare("layout_consulted_with_nondefault_modifiers");
             cov.probe_declare("release_of_ordinary_key_silent");
             cov.probe_declare("lenient_key_pressed");
+            cov.probe_declare("real_layout_object_consulted");
         }
     }
 
     fn generate(&self, rng: &mut Rng, run: u64, tier: Tier) -> Trace {
         let mut cfg = Cfg::default();
-        cfg.layout = 255;
+        // C14: one batch in eight installs the crate's real layout objects (all 30, also by
+        // reference) instead of the recorder; the oracle then asks the same object directly
+        cfg.layout = if self.prop == EProp::C14 && (run / 8) % 8 == 3 { (run % NLAYOUT_OBJS as u64) as u8 } else { 255 };
         cfg.set = if rng.bool() { 2 } else { 1 };
         cfg.map = rng.bool();
         // C04 needs get_modifiers(), which only Keyboard has; C14 alternates
@@ -250,6 +253,8 @@ impl Scenario for Events {
                 // usually a few repeats; now and then somebody leans on the key for half a minute
                 let reps = if !rng.chance(1, 200) {
                     rng.range(1, 3)
+                } else if rng.chance(1, 50) {
+                    rng.range(65_530, 65_600) // a book on the keyboard: past the 16-bit mark
                 } else if rng.bool() {
                     rng.range(250, 262) // right around the mark where 8-bit bookkeeping would wrap
                 } else {
@@ -303,7 +308,14 @@ impl Scenario for Events {
         let mut h = LogHash::new();
         let log: AskLog = Rc::new(RefCell::new(RecLog::default()));
         let mut rec_id: u8 = 0;
-        let mk = |id: u8| DynLayout::Recorder { id, log: log.clone() };
+        let real_layouts = cfg.layout != 255;
+        let mk = |id: u8| {
+            if real_layouts {
+                DynLayout::object((cfg.layout as usize + id as usize * 7) % NLAYOUT_OBJS)
+            } else {
+                DynLayout::Recorder { id, log: log.clone() }
+            }
+        };
         let mut sut = if cfg.obj == 1 {
             Sut::Ed(EventDecoder::new(mk(0), hc(cfg.map)))
         } else {
@@ -567,10 +579,30 @@ impl Scenario for Events {
                                 env.cov.probe("layout_consulted_with_nondefault_modifiers");
                             }
                             // exactly what the currently installed layout returned for (k, live modifiers, live mode)
+                            if real_layouts {
+                                // the installed object is one of the crate's own layouts: ask it directly
+                                let want = mk(rec_id).map_keycode(k, &live, hc(mode));
+                                env.cov.api_calls += 1;
+                                env.cov.probe("real_layout_object_consulted");
+                                if r != Some(want) && !(lenient_key(k) && r == Some(DecodedKey::RawKey(k))) {
+                                    fail!(
+                                        'ops,
+                                        i,
+                                        "press-yields-what-the-live-layout-returns",
+                                        "Down({}) with modifiers [{}], mode map={}, installed layout {}: yielded {}, the layout object itself returns {}",
+                                        kname(k),
+                                        mods_show(&live),
+                                        mode as u8,
+                                        layout_obj_name((cfg.layout as usize + rec_id as usize * 7) % NLAYOUT_OBJS),
+                                        decoded_show(&r),
+                                        decoded_show(&Some(want))
+                                    );
+                                }
+                            }
                             let matching = asked.iter().find(|a| {
                                 a.recorder == rec_id && a.key == k && a.mods == live && a.map == mode && r == Some(DecodedKey::Unicode(char::from_u32(a.token).unwrap_or('\u{0}')))
                             });
-                            let ok = matching.is_some() || (lenient_key(k) && r == Some(DecodedKey::RawKey(k)));
+                            let ok = real_layouts || matching.is_some() || (lenient_key(k) && r == Some(DecodedKey::RawKey(k)));
                             if !ok {
                                 let asked_txt: Vec<String> = asked
                                     .iter()
